@@ -27,6 +27,8 @@ VARIABLES l,      \* index of the next event
           cnt     \* how often each predicate was actually evaluated (vacuity guard, goes into the evidence)
 
 Dead == [dead |-> TRUE]
+Limp == [dead |-> FALSE]      \* out of the specification's domain: only GeomOK (total on any record) and panics are judged
+Gone(x) == x = Dead \/ x = Limp
 Ghost0 == [drained |-> <<>>,      \* every line handed out through Changes.scrollback (C14)
            ris |-> FALSE,         \* the session executed a hard reset
            resized |-> FALSE,     \* the session resized
@@ -212,7 +214,7 @@ Conformance(ll, what, r, fns, e, own) ==
               /\ ParkedOK(r.vt.t, cur.t)
       silent == a # b /\ Len(fns) = 1 /\ what = "fs" /\ Silence(e.pre, fns[1], a) = Silence(e.pre, fns[1], b)
       okT == a = b \/ silent
-      okP == r.vt.p = cur.p
+      okP == ParserLive(r.vt.p) = ParserLive(cur.p)
       leaves == IF okT THEN {} ELSE Leaves(a, b)
       (* cells with the right characters and marks but the wrong pen are C08's business, whoever wrote them *)
       penOnly == /\ "buf.lines" \in leaves /\ Len(a.buf.lines) = Len(b.buf.lines)
@@ -250,8 +252,8 @@ Handle(ll, e) ==
               \o StateMsgs(ll, e.st, <<>>, e.st, e)]
   ELSE IF k = "panic" THEN
     (* a call that panics did not do what its input asks for either: the owners of the functions it carried *)
-    LET fns == IF "s" \in DOMAIN e /\ e.slot > 0 /\ vts[e.slot] # Dead THEN Functions(vts[e.slot].p, e.s) ELSE <<>>
-        own == IF ~("s" \in DOMAIN e) \/ e.slot = 0 \/ vts[e.slot] = Dead THEN {} ELSE IF fns = <<>> THEN {"C20"} ELSE Owners(fns)
+    LET fns == IF "s" \in DOMAIN e /\ e.slot > 0 /\ ~Gone(vts[e.slot]) THEN Functions(vts[e.slot].p, e.s) ELSE <<>>
+        own == IF ~("s" \in DOMAIN e) \/ e.slot = 0 \/ Gone(vts[e.slot]) THEN {} ELSE IF fns = <<>> THEN {"C20"} ELSE Owners(fns)
     IN
     [vts |-> IF e.slot = 0 THEN vts ELSE [vts EXCEPT ![e.slot] = Dead], gh |-> gh,
      msgs |-> <<Msg("FAIL C01", ll, "panic in " \o e.op \o ": " \o e.msg)>>
@@ -259,6 +261,7 @@ Handle(ll, e) ==
   ELSE IF k \in {"fs", "fc", "rs"} THEN
     LET s == e.slot  prev == vts[s]  cur == e.st IN
     IF prev = Dead THEN [vts |-> vts, gh |-> gh, msgs |-> <<>>]
+    ELSE IF prev = Limp THEN [vts |-> vts, gh |-> gh, msgs |-> IF GeomOK(cur) THEN <<>> ELSE <<Msg("FAIL C02", ll, "geometry")>>]
     ELSE
     LET fns == IF k = "rs" THEN <<>> ELSE Functions(prev.p, e.s)
         own == IF k = "rs" THEN {} ELSE IF fns = <<>> THEN {"C20"} ELSE Owners(fns)
@@ -271,10 +274,10 @@ Handle(ll, e) ==
         g1b == [g1 EXCEPT !.lastClean = e.clean]
         g2 == IF k = "rs" THEN [g1b EXCEPT !.resized = TRUE, !.snapResized = TRUE, !.savP.moved = TRUE, !.savA.moved = TRUE] ELSE g1b
     IN IF ~Sane(cur)
-       THEN [vts |-> [vts EXCEPT ![s] = Dead], gh |-> gh,
+       THEN [vts |-> [vts EXCEPT ![s] = Limp], gh |-> gh,
              msgs |-> Conformance(ll, k, r, fns, e2, own)
                       \o (IF GeomOK(cur) THEN <<>> ELSE <<Msg("FAIL C02", ll, "geometry")>>)
-                      \o <<Msg("DRIFT", ll, "state outside the specification's domain: this terminal is not judged any further (a later panic still counts)")>>]
+                      \o <<Msg("DRIFT", ll, "state outside the specification's domain: from here on only the geometry of this terminal's logged states and panics are judged")>>]
        ELSE
        [vts |-> [vts EXCEPT ![s] = cur], gh |-> [gh EXCEPT ![s] = g2],
         msgs |-> Conformance(ll, k, r, fns, e2, own)
@@ -300,7 +303,7 @@ Handle(ll, e) ==
                      THEN <<Msg("FAIL C02", ll, "size() does not report the requested geometry")>> ELSE <<>>)]
   ELSE IF k = "dump" THEN
     LET s == e.slot  cur == vts[s] IN
-    IF cur = Dead THEN [vts |-> vts, gh |-> gh, msgs |-> <<>>]
+    IF Gone(cur) THEN [vts |-> vts, gh |-> gh, msgs |-> <<>>]
     ELSE [vts |-> vts, gh |-> [gh EXCEPT ![s].dclass = DumpClasses(cur), ![s].dmirror = (e.out = VtDump(cur)),
                                          ![s].dstate = [c |-> <<cur>>, w |-> FALSE], ![s].dstage = "dumped", ![s].dexact = FALSE],
           msgs |-> IF e.out = VtDump(cur) THEN <<>>
@@ -308,7 +311,7 @@ Handle(ll, e) ==
   ELSE IF k = "q" THEN
     (* read-only accessors beyond the listed properties: Vt::line(n), Line::chunks / text / len, Cursor -> Option *)
     LET s == e.slot  cur == vts[s] IN
-    IF cur = Dead THEN [vts |-> vts, gh |-> gh, msgs |-> <<>>]
+    IF Gone(cur) THEN [vts |-> vts, gh |-> gh, msgs |-> <<>>]
     ELSE LET v == View(cur.t.buf)
              wantChunks == [r \in 1..Len(v) |-> LET ch == Chunks(v[r].c, LAMBDA c1, c2 : c1[2] # c2[2]) IN [i \in 1..Len(ch) |-> Len(ch[i])]]
              wantTexts == [r \in 1..Len(v) |-> LineText(v[r])]
@@ -318,14 +321,14 @@ Handle(ll, e) ==
                       ELSE <<Msg("DRIFT", ll, "a read-only accessor (line(n) / chunks / text / len / cursor option) differs from the specification")>>]
   ELSE IF k = "text" THEN
     LET s == e.slot  cur == vts[s] IN
-    IF cur = Dead THEN [vts |-> vts, gh |-> gh, msgs |-> <<>>]
+    IF Gone(cur) THEN [vts |-> vts, gh |-> gh, msgs |-> <<>>]
     ELSE [vts |-> vts, gh |-> [gh EXCEPT ![s].lastText = e.out],
           msgs |-> (IF Text(cur.t) = e.out THEN <<>> ELSE <<Msg("CONF", ll, "what=text owners={\"C09\", \"C16\"}")>>)
                    \o (IF gh[s].snap # NoLine /\ ~gh[s].snapResized /\ cur.t.alt /\ e.out # BufText(gh[s].snap.c)
                        THEN <<Msg("FAIL C16", ll, "text() changed during the excursion")>> ELSE <<>>)]
   ELSE IF k = "rel" THEN
     LET a == vts[e.slots[1]]  b == vts[e.slots[2]]
-        alive == \A i \in 1..Len(e.slots) : vts[e.slots[i]] # Dead
+        alive == \A i \in 1..Len(e.slots) : ~Gone(vts[e.slots[i]])
         s1 == e.slots[1]
         (* a C11 failure is attributed to a listed finding only if the dump-time state is in the class AND the
            restored terminal is exactly what the pinned dump() (mirrored by Dump.tla) restores to *)
@@ -370,7 +373,7 @@ HandleParser(ll, e) ==
   IF e.ev = "pnew" THEN [pp |-> InitP, msgs |-> <<>>]
   ELSE IF e.ev = "pf" THEN
     LET r == ParserRun(pp, e.s)
-        ok == OutsEq(r.outs, e.outs) /\ r.p = e.st
+        ok == OutsEq(r.outs, e.outs) /\ ParserLive(r.p) = ParserLive(e.st)
         firstBad == IF OutsEq(r.outs, e.outs) THEN 0 ELSE CHOOSE i \in 1..Len(e.s) : ~FnEq(r.outs[i], e.outs[i]) /\ \A j \in 1..(i - 1) : FnEq(r.outs[j], e.outs[j])
     IN [pp |-> e.st,
         msgs |-> (IF ok THEN <<>> ELSE <<Msg("CONF", ll, "what=parser owners={\"C03\"} first-bad-char=" \o S(firstBad)
@@ -384,7 +387,7 @@ HandleParser(ll, e) ==
     LET bgp == ParserRun(InitP, e.bg).p
         exp == [out |-> e.out, st |-> e.st]
         pts == SweepPoints(e.lo, e.hi)
-        bad == {c \in pts : ~(c \in 55296..57343) /\ LET x == Abs(Step(bgp, c), c) IN ~(FnEq(x.out, exp.out) /\ x.st = exp.st)}
+        bad == {c \in pts : ~(c \in 55296..57343) /\ LET x == Abs(Step(bgp, c), c) IN ~(FnEq(x.out, exp.out) /\ ParserLive(x.st) = ParserLive(exp.st))}
         wide == e.hi - e.lo >= 4096       \* a wide run is examined at every point below lo + 256 and sampled above:
                                           \* Step uses a character >= U+00A0 only as payload (HighIsFinal)
     IN [pp |-> pp,
@@ -404,11 +407,11 @@ Tags(e, prevs, p0) ==
   ELSE IF e.ev = "dump" THEN <<"conformance:dump-mirror">>
   ELSE IF e.ev = "q" THEN <<"conformance:accessors">>
   ELSE IF e.ev = "rs" THEN <<"conformance:resize", "GeomOK", "ChangesSound", "Bound">>
-                           \o (IF prevs # Dead /\ ~prevs.t.alt /\ prevs.t.lim = -1 THEN <<"ResizeTextOK">> ELSE <<>>)
+                           \o (IF ~Gone(prevs) /\ ~prevs.t.alt /\ prevs.t.lim = -1 THEN <<"ResizeTextOK">> ELSE <<>>)
   ELSE IF e.ev = "fc" THEN <<"conformance:feed", "GeomOK">>
   ELSE IF e.ev = "fs" THEN
        <<"conformance:feed_str", "GeomOK", "ChangesSound", "Bound">>
-       \o (IF prevs # Dead THEN
+       \o (IF ~Gone(prevs) THEN
              LET fns == Functions(prevs.p, e.s) IN
              (IF TokenMeaning(e.s).known THEN <<"TokenMeaning">> \o (IF TokenMeaning(e.s).fn.f = "None" THEN <<"InertOK">> ELSE <<>>) ELSE <<>>)
              \o (IF fns = <<>> /\ e.s # <<>> THEN <<"inert-call">> ELSE <<>>)
